@@ -12,11 +12,16 @@ The rank clause is proved for all sizes at the operator level (`rank_family`): a
 of `n − k` generators — all vertices, all yz and xz faces, the xy faces of the layer `z = 0` and the
 xy faces of the top of the tube except one — is GF(2)-independent.  (Relations left out: one xy face
 per cube of the two end slabs `x = 1`, `x = 2Lx − 1`, and one face for the closed surface around the
-cavity.)  With `C01.rank_upper_bound` (commutation + pairing force rank ≤ n − k, every code) the
-rank is exactly `n − k`; the translation of `OpsIndep` into `Indep` on BSF rows is the operator/BSF
-bridge (`Proofs/OpComm.lean`), not repeated here.
+cavity.)  `valid_code` puts everything together through the generic bridges `Proofs/OpComm.lean`
+(`symp (to_bsf a) (to_bsf b) = opAntiCount a b mod 2` ⇒ `CommPairL` of the assembled rows) and
+`Proofs/Lat3DRankBridge.lean` (parity-form independent family of `n − k` distinct generators ⇒
+`HasRank (2n) rowsH (n − k)`): the matrices that `stabilizer_matrix`, `logicals_x`, `logicals_z` of
+the generic code model (`Model/Code.lean`, C02) assemble from this lattice model form a valid
+`[[n, 1]]` stabilizer code (`ValidCodeL`: all four clauses of C01, rank included) for EVERY size of
+the family, with or without a cavity.
 -/
 import PanqecVerif.Proofs.LatHollowPlanar3DCodeRank
+import PanqecVerif.Proofs.Lat3DRankBridge
 
 namespace Panqec.C01HollowPlanar3DCode
 open Panqec.Cubic3D Panqec.HollowPlanar3DCode
@@ -112,6 +117,28 @@ theorem rank_family (Lx Ly Lz : Nat) (hLx : 1 ≤ Lx) (hLy : 1 ≤ Ly) (hLz : 1 
     exact rankFamily_length hLx hLy hLz
   · rw [lattice_getStab]; exact rankFamily_indep hLx hLy hLz
 
+/-- **C01, all clauses, all sizes** (`1 ≤ Lx, Ly, Lz`): `stabilizer_matrix`, `logicals_x`,
+    `logicals_z` of the generic code model, applied to this lattice model, return (no `KeyError`)
+    matrices that form a valid `[[n, 1]]` stabilizer code (`n` = the `n` of `Planar3DCode` minus the
+    edges in the hole, truncated subtraction as in `n_formula`): generators pairwise commute,
+    logicals commute with the generators, `ω(X, Z) = 1`, `ω(X, X) = ω(Z, Z) = 0`, and the
+    generators have GF(2) rank `n − 1` -/
+theorem valid_code (Lx Ly Lz : Nat) (hLx : 1 ≤ Lx) (hLy : 1 ≤ Ly) (hLz : 1 ≤ Lz) :
+    stabilizerMatrix (lattice Lx Ly Lz).toCodeData = some (lattice Lx Ly Lz).rowsH ∧
+    logicalsX (lattice Lx Ly Lz).toCodeData = some (lattice Lx Ly Lz).rowsX ∧
+    logicalsZ (lattice Lx Ly Lz).toCodeData = some (lattice Lx Ly Lz).rowsZ ∧
+    ValidCodeL (Lx * Ly * Lz + (Lx - 1) * (Ly - 1) * Lz + (Lx - 1) * Ly * (Lz - 1) -
+        ((Lx - 2) * (Ly - 2) * (Lz - 2) + (Lx - 3) * (Ly - 1) * (Lz - 2) +
+          (Lx - 3) * (Ly - 2) * (Lz - 1))) 1
+      (lattice Lx Ly Lz).rowsH (lattice Lx Ly Lz).rowsX (lattice Lx Ly Lz).rowsZ := by
+  obtain ⟨B, hsub, hlen, hind⟩ := rank_family Lx Ly Lz hLx hLy hLz
+  have hwf := wf Lx Ly Lz hLx hLy hLz
+  have h := validCode_of_opsIndep (lattice Lx Ly Lz) hwf
+    (commPair Lx Ly Lz hLx hLy hLz) B (hwf.stabs_nodup.sublist hsub) (fun s hs => hsub.subset hs)
+    hlen hind
+  rw [n_formula, k_value] at h
+  exact h
+
 /-- The coordinate lists are those of `Planar3DCode` with the hole
     `2 < x < 2Lx−2, 1 ≤ y < 2Ly−2, 1 ≤ z < 2Lz−2` removed, in the same order. -/
 theorem coordinates_rule (Lx Ly Lz : Nat) :
@@ -192,6 +219,12 @@ example : (lattice 4 3 3).CommPair := commPair 4 3 3 (by decide) (by decide) (by
 example : (lattice 3 3 3).toCodeData.n = 50 := n_formula 3 3 3
 example : (lattice 4 3 3).toCodeData.n = 66 := n_formula 4 3 3
 example : (rankFamily 4 3 3).length = 65 := by decide +kernel
+/-- a size with a cavity (4×3×3: 7 edges removed, n = 66) -/
+example : ValidCodeL 66 1 (lattice 4 3 3).rowsH (lattice 4 3 3).rowsX (lattice 4 3 3).rowsZ :=
+  (valid_code 4 3 3 (by decide) (by decide) (by decide)).2.2.2
+/-- the smallest member of the family: one qubit, no generator, rank 0 -/
+example : ValidCodeL 1 1 (lattice 1 1 1).rowsH (lattice 1 1 1).rowsX (lattice 1 1 1).rowsZ :=
+  (valid_code 1 1 1 (by decide) (by decide) (by decide)).2.2.2
 /-- the family really drops stabilizers: 4×3×3 has 74 generators, 9 more than `n − k` -/
 example : (stabs 4 3 3).length = 74 := by decide +kernel
 /-- `OpsIndep` is not vacuous: a family containing the same operator twice is dependent -/
